@@ -241,6 +241,17 @@ def hypRound [DecidableEq ι] (avgLoss : P → γ → Key → Rat) (splitN : Key
   let sums := hypSums clusters assignOf size (hypResults grad copt clusters assignOf clients)
   List.zipWith (hypServer sopt) s (sums.map hypDelta)
 
+/-- the round for a *given* assignment of client ids to clusters.  The property fixes the
+assignment only up to ties ("a cluster of minimal average loss"); `hypRound` is this function at the
+first-minimum assignment, an implementation may break exact ties differently. -/
+def hypRoundWith [DecidableEq ι] (assignOf : ι → Nat) (grad : P → β → Key → P) (copt : Optimizer σc)
+    (sopt : Optimizer σs) (s : List (ServerState σs)) (clients : List (HClient ι β γ)) :
+    List (ServerState σs) :=
+  let clusters := s.map (·.params)
+  let size := FedAvg.sizeOf (clients.map (·.toClient))
+  let sums := hypSums clusters assignOf size (hypResults grad copt clusters assignOf clients)
+  List.zipWith (hypServer sopt) s (sums.map hypDelta)
+
 def hypRounds [DecidableEq ι] (avgLoss : P → γ → Key → Rat) (splitN : Key → Nat → List Key)
     (grad : P → β → Key → P) (copt : Optimizer σc) (sopt : Optimizer σs)
     (s : List (ServerState σs)) (cohorts : List (List (HClient ι β γ))) : List (ServerState σs) :=
